@@ -306,6 +306,17 @@ class World:
             st.ghost['status'][a] = sv
             self.status[a] = sv
 
+    def mutex_of(self, st):
+        """actor name -> id of the mutex object guarding its relations record (records present in the reverse index in this state)"""
+        I = self.I
+        pg = I.read(st, self.cell, ())
+        out = {}
+        for e in pg.fields[3].fields:
+            mx = I.read(st, e.fields[1].cell, ())
+            name = {1: 'a', 2: 'b', 3: 'l', 4: 'm'}.get(z3.simplify(e.fields[0].fields[-1].t).as_long(), '?') if e.fields[0].variant == 'Local' else 'remote'
+            out[name] = mx.oid
+        return out
+
     def read(self, st):
         """-> dict(members, listeners, world, index, relations) with python values"""
         I = self.I
